@@ -208,8 +208,10 @@ def gen_ops(rng, cols, rows, source):
                 cols.append(name)
                 new.append(name)
         else:
+            # ("iso" after a column was added under its alias "isocode": the name isocode is then both a
+            #  column of its own and a configured alias of iso - no consistent reading exists; see notes)
             cands = [x for x in ["xx", "Foo", "tokens", "cogids", "iso", "langid", "partial_ids", "yy"]
-                     if x.lower() not in cols]
+                     if x.lower() not in cols and not (x == "iso" and "isocode" in cols)]
             override = rng.random() < 0.2
             if override and rng.random() < 0.7:
                 entry = rng.choice([x for x in cols if x not in ("doculect", "concept")])
